@@ -70,7 +70,7 @@ fn labels_json(p: &Array1<usize>) -> Value {
 // ---------------------------------------------------------------------------------------------
 // naive Bayes: state of a model read from its serde-JSON form, classes sorted by label
 
-fn nb_state(model_json: &Value, gaussian: bool) -> Value {
+fn nb_state(model_json: &Value, gaussian: bool, off: f64) -> Value {
     let ci = model_json["class_info"].as_object().expect("class_info");
     let mut labs: Vec<i64> = ci.keys().map(|k| k.parse::<i64>().expect("label key")).collect();
     labs.sort();
@@ -80,7 +80,7 @@ fn nb_state(model_json: &Value, gaussian: bool) -> Value {
         let prior = info["prior"].as_f64().unwrap_or(f64::NAN);
         if gaussian {
             out.push(json!({"label": l, "count": info["class_count"].as_i64().unwrap(), "prior": fxs(prior, S6),
-                            "theta": fxsv(arr1(&info["theta"]).iter(), S6), "sigma": fxsv(arr1(&info["sigma"]).iter(), S6)}));
+                            "theta": fxsv(arr1(&info["theta"]).iter().map(|v| v - off).collect::<Vec<f64>>().iter(), S6), "sigma": fxsv(arr1(&info["sigma"]).iter(), S6)}));
         } else {
             let fc = arr1(&info["feature_count"]);
             // ln 0 = -inf is serialised as null by serde_json: read the sign back from the count
@@ -103,9 +103,15 @@ fn run_gnb(inp: &Value) -> Vec<Value> {
     let d = geti(inp, "d") as usize;
     let rows = imat(&inp["rows"]);
     let labels: Vec<usize> = ivec(&inp["labels"]).iter().map(|l| *l as usize).collect();
-    let x = to_array2(&rows, d);
+    // optional exactly representable offset 2^offk added to every feature (and every query); means are logged
+    // with the offset subtracted again, variances are shift-invariant: the specification works on the un-shifted integers
+    let off = match inp.get("offk").and_then(|v| v.as_i64()).unwrap_or(0) {
+        0 => 0.0,
+        k => (2.0f64).powi(k as i32),
+    };
+    let x = to_array2(&rows, d).mapv(|v| v + off);
     let y = Array1::from(labels);
-    let q = to_array2(&imat(&inp["queries"]), d);
+    let q = to_array2(&imat(&inp["queries"]), d).mapv(|v| v + off);
     let vs = rat(inp, "vs");
     let params = match GaussianNb::<f64, usize>::params().var_smoothing(vs).check() {
         Ok(p) => p,
@@ -129,7 +135,7 @@ fn run_gnb(inp: &Value) -> Vec<Value> {
             }
         }
         let m = model.as_ref().unwrap();
-        let st = nb_state(&serde_json::to_value(m).unwrap(), true);
+        let st = nb_state(&serde_json::to_value(m).unwrap(), true, off);
         let (predok, pred) = match guarded(|| m.predict(&q)) {
             Ok(p) => (true, labels_json(&p)),
             Err(_) => (false, json!([])),
@@ -140,7 +146,7 @@ fn run_gnb(inp: &Value) -> Vec<Value> {
     let ds = DatasetView::new(x.view(), y.view());
     match guarded(|| params.fit(&ds)) {
         Ok(Ok(m)) => {
-            let st = nb_state(&serde_json::to_value(&m).unwrap(), true);
+            let st = nb_state(&serde_json::to_value(&m).unwrap(), true, off);
             let (predok, pred) = match guarded(|| m.predict(&q)) {
                 Ok(p) => (true, labels_json(&p)),
                 Err(_) => (false, json!([])),
@@ -183,7 +189,7 @@ fn run_mnb(inp: &Value) -> Vec<Value> {
             }
         }
         let m = model.as_ref().unwrap();
-        let st = nb_state(&serde_json::to_value(m).unwrap(), false);
+        let st = nb_state(&serde_json::to_value(m).unwrap(), false, 0.0);
         let (predok, pred) = match guarded(|| m.predict(&q)) {
             Ok(p) => (true, labels_json(&p)),
             Err(_) => (false, json!([])),
@@ -193,7 +199,7 @@ fn run_mnb(inp: &Value) -> Vec<Value> {
     let ds = DatasetView::new(x.view(), y.view());
     match guarded(|| params.fit(&ds)) {
         Ok(Ok(m)) => {
-            let st = nb_state(&serde_json::to_value(&m).unwrap(), false);
+            let st = nb_state(&serde_json::to_value(&m).unwrap(), false, 0.0);
             let (predok, pred) = match guarded(|| m.predict(&q)) {
                 Ok(p) => (true, labels_json(&p)),
                 Err(_) => (false, json!([])),
@@ -292,31 +298,44 @@ fn run_kmeans(inp: &Value) -> Vec<Value> {
 // ---------------------------------------------------------------------------------------------
 // FTRL
 
-fn ftrl_snapshot(m: &Ftrl<f64>) -> Value {
-    let w = m.get_weights();
+/// FTRL models are run in f64 or f32 (inp.ft). A history may carry a power-of-two UNIT u (inp.unit): feature values
+/// are given as integers, z0 / beta in units of u; the state is logged as z/u, n/u^2 (exact scalings), so that the
+/// specification sees an ordinary-magnitude recurrence while the code works on badly scaled features.
+fn ftrl_snapshot<F: linfa::Float>(m: &Ftrl<F>, u: f64) -> Value {
+    let w: Vec<f64> = m.get_weights().iter().map(|v| v.to_f64().unwrap()).collect();
+    let z: Vec<f64> = m.z().iter().map(|v| v.to_f64().unwrap() / u).collect();
+    let n: Vec<f64> = m.n().iter().map(|v| v.to_f64().unwrap() / (u * u)).collect();
     json!({
-        "z": fxsv(m.z().iter(), S6), "n": fxsv(m.n().iter(), S6), "w": fxsv(w.iter(), S6),
-        "zk": Value::Array(m.z().iter().map(|v| key64(v.abs())).collect()),
-        "nk": Value::Array(m.n().iter().map(|v| key64(*v)).collect()),
+        "z": fxsv(z.iter(), S6), "n": fxsv(n.iter(), S6), "w": fxsv(w.iter(), S6),
+        "zk": Value::Array(z.iter().map(|v| key64(v.abs() * u)).collect()),
+        "nk": Value::Array(n.iter().map(|v| key64(*v)).collect()),
         "wk": Value::Array(w.iter().map(|v| key64(*v)).collect()),
     })
 }
-fn ftrl_digest(m: &Ftrl<f64>) -> Value {
-    let mut v: Vec<f64> = m.z().iter().cloned().collect();
-    v.extend(m.n().iter().cloned());
+fn ftrl_digest<F: linfa::Float>(m: &Ftrl<F>) -> Value {
+    let mut v: Vec<f64> = m.z().iter().map(|x| x.to_f64().unwrap()).collect();
+    v.extend(m.n().iter().map(|x| x.to_f64().unwrap()));
     digest_f64(v.iter())
 }
 
-fn ftrl_history(inp: &Value, explicit_new: bool) -> Result<(Vec<Value>, Vec<Value>), Value> {
+fn ftrl_history<F>(inp: &Value, explicit_new: bool) -> Result<(Vec<Value>, Vec<Value>), Value>
+where
+    F: linfa::Float + serde::de::DeserializeOwned + serde::Serialize,
+{
     let d = geti(inp, "d") as usize;
+    let u = inp.get("unit").and_then(|v| v.as_i64()).unwrap_or(1) as f64;
     let h = &inp["hyper"];
-    let (alpha, beta, l1, l2) = (rat(h, "alpha"), rat(h, "beta"), rat(h, "l1"), rat(h, "l2"));
+    let (alpha, beta, l1, l2) = (rat(h, "alpha"), rat(h, "beta") * u, rat(h, "l1"), rat(h, "l2"));
     let seed = geti(inp, "seed") as u64;
-    let params = Ftrl::<f64>::params_with_rng(Xoshiro256Plus::seed_from_u64(seed)).alpha(alpha).beta(beta).l1_ratio(l1).l2_ratio(l2);
+    let params = Ftrl::<F>::params_with_rng(Xoshiro256Plus::seed_from_u64(seed))
+        .alpha(F::cast(alpha))
+        .beta(F::cast(beta))
+        .l1_ratio(F::cast(l1))
+        .l2_ratio(F::cast(l2));
     let valid = params.clone().check().map_err(|e| json!({"ev": "error", "at": "check", "msg": format!("{}", e)}))?;
     // initial model: "seed" = Ftrl::new (random z from the seeded generator), "given" = chosen z, n
     // installed through the public Deserialize impl (the fields are private)
-    let mut model: Option<Ftrl<f64>> = match gets(inp, "init") {
+    let mut model: Option<Ftrl<F>> = match gets(inp, "init") {
         "seed" => {
             if explicit_new {
                 Some(Ftrl::new(valid.clone(), d))
@@ -325,24 +344,25 @@ fn ftrl_history(inp: &Value, explicit_new: bool) -> Result<(Vec<Value>, Vec<Valu
             }
         }
         "given" => {
-            let z: Vec<f64> = geta(inp, "z0").iter().map(|r| geti(r, "num") as f64 / geti(r, "den") as f64).collect();
-            let n: Vec<f64> = geta(inp, "n0").iter().map(|r| geti(r, "num") as f64 / geti(r, "den") as f64).collect();
+            let z: Vec<f64> = geta(inp, "z0").iter().map(|r| u * geti(r, "num") as f64 / geti(r, "den") as f64).collect();
+            let n: Vec<f64> = geta(inp, "n0").iter().map(|r| u * u * geti(r, "num") as f64 / geti(r, "den") as f64).collect();
             let j = json!({"alpha": alpha, "beta": beta, "l1_ratio": l1, "l2_ratio": l2,
                            "z": {"v": 1, "dim": [d], "data": z}, "n": {"v": 1, "dim": [d], "data": n}});
             Some(serde_json::from_value(j).expect("Ftrl from json"))
         }
         other => panic!("unknown init {}", other),
     };
+    let l1k = key64(F::cast(l1).to_f64().unwrap());
     let mut ev = Vec::new();
     let mut digs = Vec::new();
     if let Some(m) = model.as_ref() {
-        let mut s = ftrl_snapshot(m);
+        let mut s = ftrl_snapshot(m, u);
         s["ev"] = json!("ft0");
-        s["l1k"] = key64(l1);
+        s["l1k"] = l1k.clone();
         ev.push(s);
     }
     for (i, b) in geta(inp, "batches").iter().enumerate() {
-        let xb = to_array2(&imat(&b["x"]), d);
+        let xb = to_array2(&imat(&b["x"]), d).mapv(F::cast);
         let yb: Array1<bool> = Array1::from(geta(b, "y").iter().map(|v| v.as_bool().expect("bool")).collect::<Vec<_>>());
         // probabilities of the batch rows under the model before the update (public predict)
         let p = match model.as_ref() {
@@ -372,16 +392,21 @@ fn ftrl_history(inp: &Value, explicit_new: bool) -> Result<(Vec<Value>, Vec<Valu
         };
         // a state outside the fixed-point range (|v| * 10^6 >= 2^30) cannot be logged: the history is cut here and
         // the specification decides from the previous state whether leaving the range was to be expected
-        let out_of_range = m.z().iter().chain(m.n().iter()).any(|v| v.is_finite() && (v * S6).abs() >= 1073741824.0);
+        let out_of_range = m
+            .z()
+            .iter()
+            .map(|v| v.to_f64().unwrap() / u)
+            .chain(m.n().iter().map(|v| v.to_f64().unwrap() / (u * u)))
+            .any(|v| v.is_finite() && (v * S6).abs() >= 1073741824.0);
         if out_of_range {
             ev.push(json!({"ev": "ft_big", "after": i + 1, "p": p}));
             break;
         }
-        let mut s = ftrl_snapshot(&m);
+        let mut s = ftrl_snapshot(&m, u);
         s["ev"] = json!("ft");
         s["after"] = json!(i + 1);
         s["p"] = p;
-        s["l1k"] = key64(l1);
+        s["l1k"] = l1k.clone();
         s["dig"] = ftrl_digest(&m);
         s["updig"] = upd.unwrap_or_else(|| ftrl_digest(&m));
         ev.push(s);
@@ -391,18 +416,27 @@ fn ftrl_history(inp: &Value, explicit_new: bool) -> Result<(Vec<Value>, Vec<Valu
     Ok((ev, digs))
 }
 
-fn run_ftrl(inp: &Value) -> Vec<Value> {
-    let (mut ev, d1) = match ftrl_history(inp, true) {
+fn run_ftrl_t<F>(inp: &Value) -> Vec<Value>
+where
+    F: linfa::Float + serde::de::DeserializeOwned + serde::Serialize,
+{
+    let (mut ev, d1) = match ftrl_history::<F>(inp, true) {
         Ok(x) => x,
         Err(e) => return vec![e],
     };
     // the same history again: from fresh parameters, and (seeded start) through fit_with(None, ..)
-    let (_, d2) = match ftrl_history(inp, false) {
+    let (_, d2) = match ftrl_history::<F>(inp, false) {
         Ok(x) => x,
         Err(e) => return vec![e],
     };
     ev.push(json!({"ev": "rerun", "dig": d1, "dig2": d2}));
     ev
+}
+fn run_ftrl(inp: &Value) -> Vec<Value> {
+    match inp.get("ft").and_then(|v| v.as_str()).unwrap_or("f64") {
+        "f32" => run_ftrl_t::<f32>(inp),
+        _ => run_ftrl_t::<f64>(inp),
+    }
 }
 
 fn main() {
